@@ -105,28 +105,30 @@ fn run_case<T: P>(c: &Value, ne: usize, cmp: &mut usize) -> Option<String> {
 pub fn replay(args: &[String]) {
     let path = &args[0];
     let ne = arg_usize(args, "--elems", 3);
-    let cases = read_lines(path);
     let mut cmp = 0usize;
     let mut bad: Vec<Value> = vec![];
     let mut nontrivial = 0usize;
-    for c in &cases {
+    let mut ncases = 0usize;
+    let mut sample: Option<Value> = None;
+    for_each_line(path, |c| {
+        ncases += 1;
         let ops = c["ops"].as_array().unwrap();
         let has_union = ops.iter().any(|o| o["op"] == "unite" && o["a"] != o["b"]);
         let has_clone = ops.iter().any(|o| o["op"] == "clone");
         if has_union && has_clone { nontrivial += 1; }
         for (kind, r) in [
-            ("IntPartition", run_case::<IntPartition>(c, ne, &mut cmp)),
-            ("Partition<usize>", run_case::<Partition<usize>>(c, ne, &mut cmp)),
-            ("Partition<String>", run_case::<Partition<String>>(c, ne, &mut cmp)),
+            ("IntPartition", run_case::<IntPartition>(&c, ne, &mut cmp)),
+            ("Partition<usize>", run_case::<Partition<usize>>(&c, ne, &mut cmp)),
+            ("Partition<String>", run_case::<Partition<String>>(&c, ne, &mut cmp)),
         ] {
             if let Some(msg) = r {
                 if bad.len() < 5 { bad.push(json!({"type": kind, "why": msg, "case": c})); }
             }
         }
-    }
-    println!("{}", json!({"cases": cases.len(), "executions": cases.len() * 3, "comparisons": cmp,
-                          "nontrivial": nontrivial, "mismatches": bad,
-                          "sample": cases.get(cases.len() / 2)}));
+        if ncases == 1000 || sample.is_none() { sample = Some(c); }
+    });
+    println!("{}", json!({"cases": ncases, "executions": ncases * 3, "comparisons": cmp,
+                          "nontrivial": nontrivial, "mismatches": bad, "sample": sample}));
 }
 
 /// impl -> spec: long random histories, every call and its result recorded for Trace_C20.
